@@ -3,6 +3,7 @@
 //! deserializers); after a successful deserialization the panicking accessors are called.
 use crate::alloc::guarded;
 use crate::chunks::ChunkWriter;
+use crate::natural::{diff_path, find_num, get_path, positional, self_describing, Template};
 use crate::pure::{frame_code, structured_code, structured_of};
 use helgoboss_midi::*;
 use serde::de::value::{Error as DeError, I16Deserializer, I32Deserializer, I64Deserializer, I8Deserializer,
@@ -88,32 +89,86 @@ macro_rules! int_rows {
     };
 }
 
-fn frame_json(c: [i64; 3]) -> Value {
-    let names = ["FrameCountLsNibble", "FrameCountMsNibble", "SecondsCountLsNibble", "SecondsCountMsNibble",
-                 "MinutesCountLsNibble", "MinutesCountMsNibble", "HoursCountLsNibble"];
-    if c[0] < 7 {
-        json!({ names[c[0] as usize]: c[1] })
-    } else {
-        let t = ["Fps24", "Fps25", "Fps30DropFrame", "Fps30NonDrop", "Bogus"][(c[2].clamp(0, 4)) as usize];
-        json!({"Last": {"hours_count_ms_bit": c[1] != 0, "time_code_type": t}})
-    }
+/// Template of a 14-bit CC message in the given form (self-describing or positional).
+fn cc14_template(form: fn(&ControlChange14BitMessage) -> Value) -> Template {
+    let base = form(&ControlChange14BitMessage::new(Channel::new(1), ControllerNumber::new(2), U14::new(3)));
+    let fields = vec![
+        ("channel".to_string(), find_num(&base, 1, "channel")),
+        ("cn".to_string(), find_num(&base, 2, "msb_controller_number")),
+        ("value".to_string(), find_num(&base, 3, "value")),
+    ];
+    Template { base, fields }
 }
 
-fn structured_json(c: [i64; 4]) -> Value {
+struct PnTemplate {
+    t: Template,
+    reg: [Value; 2],
+    b14: [Value; 2],
+    dt: [Value; 4],
+}
+
+fn pn_template(form: fn(&ParameterNumberMessage) -> Value) -> PnTemplate {
+    let (c, n, v) = (Channel::new(1), U14::new(2), U7::new(3));
+    let a = form(&ParameterNumberMessage::registered_7_bit(c, n, v));
+    let nonreg = form(&ParameterNumberMessage::non_registered_7_bit(c, n, v));
+    let wide = form(&ParameterNumberMessage::registered_14_bit(c, n, U14::new(3)));
+    let inc = form(&ParameterNumberMessage::registered_increment(c, n, v));
+    let dec = form(&ParameterNumberMessage::registered_decrement(c, n, v));
+    let p_reg = diff_path(&a, &nonreg, "is_registered");
+    let p_b14 = diff_path(&a, &wide, "is_14_bit");
+    let p_dt = diff_path(&a, &inc, "data_type");
+    let g = |x: &Value, p: &crate::natural::Path| get_path(x, p).unwrap().clone();
+    let reg = [g(&nonreg, &p_reg), g(&a, &p_reg)];
+    let b14 = [g(&a, &p_b14), g(&wide, &p_b14)];
+    let dt = [g(&a, &p_dt), g(&inc, &p_dt), g(&dec, &p_dt), json!("Bogus")];
+    let fields = vec![
+        ("channel".to_string(), find_num(&a, 1, "channel")),
+        ("number".to_string(), find_num(&a, 2, "number")),
+        ("value".to_string(), find_num(&a, 3, "value")),
+        ("reg".to_string(), p_reg),
+        ("b14".to_string(), p_b14),
+        ("dt".to_string(), p_dt),
+    ];
+    PnTemplate { t: Template { base: a, fields }, reg, b14, dt }
+}
+
+/// Natural (self-describing) representation of a structured message given by its code, with the
+/// numeric fields patched in (so that out-of-range field values can be expressed).
+fn structured_input(c: [i64; 4]) -> Value {
+    let g = |x: &Value, p: &crate::natural::Path| get_path(x, p).unwrap().clone();
     match c[0] {
-        0 => json!({"NoteOff": {"channel": c[1], "key_number": c[2], "velocity": c[3]}}),
-        1 => json!({"NoteOn": {"channel": c[1], "key_number": c[2], "velocity": c[3]}}),
-        2 => json!({"PolyphonicKeyPressure": {"channel": c[1], "key_number": c[2], "pressure_amount": c[3]}}),
-        3 => json!({"ControlChange": {"channel": c[1], "controller_number": c[2], "control_value": c[3]}}),
-        4 => json!({"ProgramChange": {"channel": c[1], "program_number": c[2]}}),
-        5 => json!({"ChannelPressure": {"channel": c[1], "pressure_amount": c[2]}}),
-        6 => json!({"PitchBendChange": {"channel": c[1], "pitch_bend_value": c[2]}}),
-        8 => json!({"TimeCodeQuarterFrame": frame_json([c[1], c[2], c[3]])}),
-        9 => json!({"SongPositionPointer": {"position": c[1]}}),
-        10 => json!({"SongSelect": {"song_number": c[1]}}),
-        v => json!(["", "", "", "", "", "", "", "SystemExclusiveStart", "", "", "", "TuneRequest", "SystemExclusiveEnd",
-                    "TimingClock", "Start", "Continue", "Stop", "ActiveSensing", "SystemReset", "SystemCommonUndefined1",
-                    "SystemCommonUndefined2", "SystemRealTimeUndefined1", "SystemRealTimeUndefined2"][v as usize]),
+        0..=3 => {
+            let base = self_describing(&structured_of([c[0], 1, 2, 3]));
+            let t = Template { fields: vec![("a".into(), find_num(&base, 1, "channel")), ("b".into(), find_num(&base, 2, "field 2")),
+                                           ("c".into(), find_num(&base, 3, "field 3"))], base };
+            t.with(&[("a", json!(c[1])), ("b", json!(c[2])), ("c", json!(c[3]))])
+        }
+        4..=6 => {
+            let base = self_describing(&structured_of([c[0], 1, 2, 0]));
+            let t = Template { fields: vec![("a".into(), find_num(&base, 1, "channel")), ("b".into(), find_num(&base, 2, "field 2"))], base };
+            t.with(&[("a", json!(c[1])), ("b", json!(c[2]))])
+        }
+        8 if c[1] < 7 => {
+            let base = self_describing(&structured_of([8, c[1], 1, 0]));
+            let t = Template { fields: vec![("a".into(), find_num(&base, 1, "nibble"))], base };
+            t.with(&[("a", json!(c[2]))])
+        }
+        8 => {
+            let base = self_describing(&structured_of([8, 7, 0, 0]));
+            let hours = self_describing(&structured_of([8, 7, 1, 0]));
+            let p_h = diff_path(&base, &hours, "hours_count_ms_bit");
+            let p_t = diff_path(&base, &self_describing(&structured_of([8, 7, 0, 1])), "time_code_type");
+            let tv = if (0..4).contains(&c[3]) { g(&self_describing(&structured_of([8, 7, 0, c[3]])), &p_t) } else { json!("Bogus") };
+            let hv = if c[2] != 0 { g(&hours, &p_h) } else { g(&base, &p_h) };
+            let t = Template { fields: vec![("h".into(), p_h), ("t".into(), p_t)], base };
+            t.with(&[("h", hv), ("t", tv)])
+        }
+        9 | 10 => {
+            let base = self_describing(&structured_of([c[0], 2, 0, 0]));
+            let t = Template { fields: vec![("a".into(), find_num(&base, 2, "field"))], base };
+            t.with(&[("a", json!(c[1]))])
+        }
+        v => self_describing(&structured_of([v, 0, 0, 0])),
     }
 }
 
@@ -130,13 +185,20 @@ pub fn table_serde(dir: &str, _tier: &str, _seed: u64, per: usize) -> (usize, u6
     int_rows!(w, KeyNumber, 4, ints);
     int_rows!(w, ControllerNumber, 5, ints);
 
-    // RawShortMessage from [s, d1, d2]
+    // RawShortMessage: natural representation of (144, 1, 2), patched
+    let raw_base = self_describing(&RawShortMessage::from_bytes((144, U7::new(1), U7::new(2))).unwrap());
+    let raw_t = Template {
+        fields: vec![("s".into(), find_num(&raw_base, 144, "status")), ("a".into(), find_num(&raw_base, 1, "data 1")),
+                     ("b".into(), find_num(&raw_base, 2, "data 2"))],
+        base: raw_base,
+    };
     let ss = [0i64, 1, 2, 127, 128, 144, 176, 239, 240, 241, 247, 248, 255, 256, 300, -1];
     let ds = [0i64, 1, 127, 128, 255, 256, -1];
     for &s in &ss {
         for &a in &ds {
             for &b in &ds {
-                let (r, _) = guarded(|| from_value::<RawShortMessage>(json!([s, a, b])));
+                let input = raw_t.with(&[("s", json!(s)), ("a", json!(a)), ("b", json!(b))]);
+                let (r, _) = guarded(|| from_value::<RawShortMessage>(input));
                 let mut row = vec![2, s, a, b];
                 match r {
                     Some(Ok(m)) => {
@@ -158,12 +220,15 @@ pub fn table_serde(dir: &str, _tier: &str, _seed: u64, per: usize) -> (usize, u6
         w.push(&[2, -9, -9, -9, ok]);
     }
 
-    // ControlChange14BitMessage
+    // ControlChange14BitMessage: self-describing (3) and positional (9) natural representation, patched
+    let cc14_map = cc14_template(|m| self_describing(m));
+    let cc14_seq = cc14_template(|m| positional(m));
     for &c in &[0i64, 15, 16, 255, -1] {
         for &n in &[0i64, 1, 31, 32, 33, 63, 64, 127, 128, -1] {
             for &v in &[0i64, 1, 16383, 16384, 65535, -1] {
               for kind in [3i64, 9] {
-                let val = if kind == 3 { json!({"channel": c, "msb_controller_number": n, "value": v}) } else { json!([c, n, v]) };
+                let t = if kind == 3 { &cc14_map } else { &cc14_seq };
+                let val = t.with(&[("channel", json!(c)), ("cn", json!(n)), ("value", json!(v))]);
                 let (r, _) = guarded(|| from_value::<ControlChange14BitMessage>(val));
                 let mut row = vec![kind, c, n, v];
                 match r {
@@ -186,7 +251,8 @@ pub fn table_serde(dir: &str, _tier: &str, _seed: u64, per: usize) -> (usize, u6
     }
 
     // ParameterNumberMessage
-    let dts = ["DataEntry", "DataIncrement", "DataDecrement", "Bogus"];
+    let pn_map = pn_template(|m| self_describing(m));
+    let pn_seq = pn_template(|m| positional(m));
     for &c in &[0i64, 9, 15, 16] {
         for &n in &[0i64, 1, 5, 6, 7, 127, 128, 16383, 16384] {
             for &v in &[0i64, 1, 15, 16, 100, 127, 128, 640, 3000, 16383, 16384] {
@@ -194,12 +260,10 @@ pub fn table_serde(dir: &str, _tier: &str, _seed: u64, per: usize) -> (usize, u6
                     for b14 in 0..2 {
                         for dt in 0..4 {
                           for kind in [4i64, 8] {
-                            let val = if kind == 4 {
-                                json!({"channel": c, "number": n, "value": v, "is_registered": reg == 1,
-                                       "is_14_bit": b14 == 1, "data_type": dts[dt as usize]})
-                            } else {
-                                json!([c, n, v, reg == 1, b14 == 1, dts[dt as usize]])
-                            };
+                            let t = if kind == 4 { &pn_map } else { &pn_seq };
+                            let val = t.t.with(&[("channel", json!(c)), ("number", json!(n)), ("value", json!(v)),
+                                                 ("reg", t.reg[reg as usize].clone()), ("b14", t.b14[b14 as usize].clone()),
+                                                 ("dt", t.dt[dt as usize].clone())]);
                             let (r, _) = guarded(|| from_value::<ParameterNumberMessage>(val));
                             let mut row = vec![kind, c, n, v, reg, b14, dt];
                             match r {
@@ -272,7 +336,7 @@ pub fn table_serde(dir: &str, _tier: &str, _seed: u64, per: usize) -> (usize, u6
         codes.push([v, 0, 0, 0]);
     }
     for c in codes {
-        let (r, _) = guarded(|| from_value::<StructuredShortMessage>(structured_json(c)));
+        let (r, _) = guarded(|| from_value::<StructuredShortMessage>(structured_input(c)));
         let mut row = vec![5, c[0], c[1], c[2], c[3]];
         match r {
             Some(Ok(m)) => {
